@@ -7,6 +7,7 @@ package sctp
 // replayed against the real build.
 
 import (
+	"encoding/binary"
 	"fmt"
 	"time"
 )
@@ -98,3 +99,10 @@ func vb2u(b bool) uint64 {
 // vTimerArmedNative: natively there is no way to query a runtime timer without
 // disturbing it, so the native meaning is "true"; the engine answers from its ghost.
 func vTimerArmedNative(t *time.Timer) bool { return true }
+
+// vFixChecksum writes the correct packet checksum into raw (no-op for runts).
+func vFixChecksum(raw []byte) {
+	if len(raw) >= packetHeaderSize {
+		binary.LittleEndian.PutUint32(raw[8:], generatePacketChecksum(raw))
+	}
+}
